@@ -47,7 +47,7 @@ func genC19(tier string, seed uint64, run int) *Scenario {
 		return &Scenario{Check: "C19", Kind: "preparams", Seed: seed, Run: run, P: p}
 	}
 	if run%5 == 4 {
-		return &Scenario{Check: "C19", Kind: "samplers", Seed: seed, Run: run, P: map[string]interface{}{"tape": []string{"zeros", "ones-then-random", "alternating", "random"}[(run/5)%4]}}
+		return &Scenario{Check: "C19", Kind: "samplers", Seed: seed, Run: run, P: map[string]interface{}{"tape": []string{"zeros", "ones-then-random", "alternating", "random", "stuck-ff-40", "stuck-aa-40", "stuck-fe-40"}[(run/5)%7]}}
 	}
 	bits := 6 + r.IntN(59) // 6..64
 	switch {
@@ -380,6 +380,16 @@ func (t *tape) Read(p []byte) (int, error) {
 		case "ones-then-random":
 			if t.reads <= 4 {
 				p[i] = 0xff
+			} else {
+				p[i] = byte(t.rng.UintN(256))
+			}
+		case "stuck-ff-40", "stuck-aa-40", "stuck-fe-40":
+			// a source that is stuck for forty reads and then recovers
+			if t.reads <= 40 {
+				p[i] = map[string]byte{"stuck-ff-40": 0xff, "stuck-aa-40": 0xaa, "stuck-fe-40": 0xfe}[t.kind]
+				if t.kind == "stuck-fe-40" && i < len(p)-1 {
+					p[i] = 0xff
+				}
 			} else {
 				p[i] = byte(t.rng.UintN(256))
 			}
